@@ -5,6 +5,8 @@ package c08
 import (
 	"context"
 	"fmt"
+	ebuotel "github.com/jilio/ebu/otel"
+	sdktrace "go.opentelemetry.io/otel/sdk/trace"
 	"reflect"
 	"runtime"
 	"sync"
@@ -80,7 +82,10 @@ type Case struct {
 	AfterCtx  bool  `json:"after_ctx,omitempty"`
 	Setters   bool  `json:"setters,omitempty"` // install legacy hooks with the Set* methods
 	Obs       bool  `json:"obs,omitempty"`     // Observability that replaces the context
-	Conc      int   `json:"conc,omitempty"`    // >1: the publishes are issued by this many concurrent goroutines
+	// ObsOTel: the bundled OpenTelemetry Observability (SDK tracer provider
+	// that records spans) is installed instead of the harness's own.
+	ObsOTel bool `json:"obs_otel,omitempty"`
+	Conc    int  `json:"conc,omitempty"` // >1: the publishes are issued by this many concurrent goroutines
 	// Store: the bus persists to "" nothing, "memory" a memory store,
 	// "honour" a store that refuses calls whose context is done (as SQL and
 	// network stores do), "failing" a store that rejects every second append.
@@ -162,7 +167,12 @@ func Run(c *Case) *vkit.Outcome {
 	if c.AfterCtx {
 		opts = append(opts, eventbus.WithAfterPublishContext(afterCtx))
 	}
-	if c.Obs {
+	if c.Obs && c.ObsOTel {
+		tp := sdktrace.NewTracerProvider(sdktrace.WithSampler(sdktrace.AlwaysSample()))
+		if ob, err := ebuotel.New(ebuotel.WithTracerProvider(tp)); err == nil {
+			opts = append(opts, eventbus.WithObservability(ob))
+		}
+	} else if c.Obs {
 		opts = append(opts, eventbus.WithObservability(obs{}))
 	}
 	if c.Store != "" {
